@@ -174,10 +174,15 @@ class Rig:
     def close(self) -> None:
         self.loop.close()
 
+    def limit(self, text: str) -> float:
+        """Seconds an entry point may take on this text before it counts as not returning: the base
+        timeout plus one second per 10 000 characters (a 200 KB as-path parses in a fraction of a second)."""
+        return self.timeout + len(text) / 10000.0
+
     # -- programmatic entry ---------------------------------------------------------------
     def parse_text(self, text: str) -> Outcome:
         try:
-            with watchdog(self.timeout) as w:
+            with watchdog(self.limit(text)) as w:
                 routes = self.cfg.parse_route_text(text)
         except Hang as e:
             return Outcome('hangs', [], _exc(e))
@@ -195,7 +200,7 @@ class Rig:
     def api_call(self, kind: str, text: str) -> Outcome:
         cmd = 'announce ' + text
         try:
-            with watchdog(self.timeout) as w:
+            with watchdog(self.limit(cmd)) as w:
                 routes = self._api(kind, cmd)
         except Hang as e:
             return Outcome('hangs', [], _exc(e))
@@ -234,7 +239,7 @@ class Rig:
         r.asynchronous.schedule = lambda service, command, coro: captured.append(coro)
         fn = {'route': api_announce.announce_route, 'attributes': api_announce.announce_attributes, 'flow': api_announce.announce_flow, 'flow6': api_announce.announce_flow, 'vpls': api_announce.announce_vpls}[kind]
         try:
-            with watchdog(self.timeout) as w:
+            with watchdog(self.limit(text)) as w:
                 fn(self.api, r, 'svc', [], text, False, 'announce')
                 for coro in captured:
                     self.loop.run_until_complete(coro)
@@ -283,7 +288,7 @@ class Rig:
                 f.write(content)
             c = Configuration([path])
             try:
-                with watchdog(self.timeout) as w:
+                with watchdog(self.limit(content)) as w:
                     ok = c.reload()
             except Hang as e:
                 return Outcome('hangs', [], _exc(e)), {}
